@@ -89,6 +89,20 @@ class EFLRSet(LogicalRecord):
 
         self._eflr_item_list = [item for item in self._eflr_item_list if item is not child]
 
+    def discard_if_empty(self) -> None:
+        """Remove this EFLRSet from the structures keeping track of it, provided that it has no EFLRItems.
+
+        A set is created when the first item is added to it. If that item could not be set up, the set must not stay
+        behind: it would keep its (early) position among the sets of the file.
+        """
+
+        if not self.n_items:
+            for attr_name in ('registered_in', 'created_in'):
+                sets_structure = getattr(self, attr_name, None)
+                if sets_structure is not None:
+                    sets_structure.remove_set(self)
+                    setattr(self, attr_name, None)
+
     def get_all_eflr_items(self) -> list[EFLRItem]:
         """Return a list of all EFLRItem instances registered with this EFLRSet instance."""
 
